@@ -24,16 +24,21 @@ func init() {
 		Level: "fault_enumeration",
 		Rule: "fault-free plane: tsp.LIB(w, n, weights) on a recording writer for every n of a range x weight families (negative, MinInt64..MaxInt64, asymmetric in definition, zero, constant, per-cell widths, seeded random); " +
 			"the bytes are read back by a TSPLIB reader written from the format description and compared entry by entry with the weight function, every call of weights is recorded and must satisfy 0 <= j < i < n. " +
-			"fault plane: W = number of Write calls of the fault-free run of (n, weights); for EVERY position p in 0..W-1 and each mode in {permanent error from p on, transient error at p only, short count with error at p, short count with nil error at p (recorded, not judged)} LIB is re-run with that fault and must return a non-nil error; " +
+			"fault plane: W = number of Write calls of the fault-free run of (n, weights); for EVERY position p in 0..W-1 (first header write .. zero-length flush .. EOF trailer) and each mode in {permanent error from p on, transient error at p only, short count with error at p, short count with nil error at p (recorded, not judged)} LIB is re-run with that fault and must return a non-nil error. " +
+			"failing-Write behaviours: a fault mode is a point of returned count {0, 1, half, len-1, FULL len(p); len+1 and -1 = broken writer, recorded only} x returned error {nil (recorded only), a plain error, io.EOF, io.ErrShortWrite, EINTR, EAGAIN, a Temporary/Timeout error, an empty-message error, a wrapped error} x bytes of the failing call {kept, dropped} x duration {that call only, 2-3 consecutive calls, from there on}; " +
+			"the failure that reports a FULL count with a non-nil error and drops the bytes (once / from there on) is injected at every position wherever the four original modes are; all the modes at every position for the small instances (quick n <= 6, thorough n <= 12), the judged count modes for two weight families above that (quick n <= 12, thorough n <= 24); the same mode lists run through the writer kinds (io.StringWriter / io.ReaderFrom devices, io.MultiWriter, a caller's *bufio.Writer), the sampled large instances and the call sequences. " +
+			"judged = the faulted call returned a non-nil error and a count in 0..len(p) (re-derived offline from the logged return values). " +
 			"one event record per injected run goes to an event log and the verdicts are re-derived offline from the log alone (which also verifies that no position is missing). thorough adds real files under strace write(2) error injection (ENOSPC at the k-th write syscall, once and from k on). " +
-			"non-trivial = injected run whose faulted write covers bytes of the weight section (or is the zero-length write of its flush), or a healthy call that follows a failed one; distinct by construction (n, weights, writer, mode, position)",
+			"overlapping calls: a second LIB call (other n, weights, writer; sometimes with a failing writer of its own) runs to completion inside EVERY Write call of a first one (before / after the writer takes the bytes) and inside every call of its weights function; each call is judged against what it writes alone. " +
+			"non-trivial = injected run whose faulted write covers bytes of the weight section (or is the zero-length write of its flush), a healthy call that follows a failed one, or a judged pair of overlapping calls; distinct by construction (n, weights, writer, mode, position)",
 		Assumptions: []string{
 			"oracle: TSPLIB reader written from the TSPLIB 95 description (harness code, self-checked on hand-written documents and 21 corrupted ones)",
 			"integers are read with strconv.ParseInt (base 10, 64 bit); rows are the lines of the weight section, numbers separated by blanks, any alignment",
-			"a write 'fails' when Write returns a non-nil error (with or without a short count); a short count with a nil error is a contract violation of the writer and is recorded, not judged",
+			"a write 'fails' when Write returns a non-nil error, whatever the error value and whatever the count in 0..len(p) (zero, short or FULL: io.Writer allows a non-nil error with n == len(p)) and whether or not the writer kept the bytes; a short or zero count with a nil error, and a count outside 0..len(p), is a contract violation of the writer and is recorded, not judged",
 			"section of a fault position = byte range of that write in the fault-free output relative to the EDGE_WEIGHT_SECTION line and the EOF line (a write may cover several parts)",
 			"bytes of LIB that sit in a caller-supplied *bufio.Writer when LIB returns are the caller's to flush: only device failures that happened before LIB returned are judged; a short count with nil error below bufio is recorded only (bufio retries after a direct write)",
 			"a weights function that panics: the panic may propagate or be turned into an error; only a nil error is a violation",
+			"a writer or a weights function may itself call tsp.LIB on another writer (two overlapping calls in one goroutine): neither call may change what the other writes or returns",
 			"thorough: strace >= 5 with -e inject and -P path filtering; one write(2) per Write call on an *os.File (checked by a control run with the fault beyond the last write)",
 		},
 		Run:            run,
@@ -44,7 +49,19 @@ func init() {
 			"offline:records_judged", "offline:bases_complete", "covered:header", "covered:weights", "covered:trailer",
 			"sampled:fault_runs:permanent", "sampled:fault_runs:transient", "sampled:fault_runs:short-error", "sampled:fault_runs:short-nil-error", "offline:sampled:records_judged",
 			"wtype_bases", "offline:wtype:records_judged", "wtype:fault-free:os.File", "wtype:fault-free:bytes.Buffer", "wtype:pipe_runs", "wtype:fault_runs:bufio:permanent", "wtype:fault_runs:stringwriter:transient",
-			"seq:healthy_calls_checked", "seq:calls:weights-panic:after-start", "seq:calls:healthy:after-transient", "seq:concatenations_on_one_bytes.Buffer"},
+			"seq:healthy_calls_checked", "seq:calls:weights-panic:after-start", "seq:calls:healthy:after-transient", "seq:concatenations_on_one_bytes.Buffer",
+			// the space of failing-Write behaviours: a failed write with a FULL count at the header, inside the weight section and at the trailer (the very last write), once and for good
+			"fault_runs:full-error-dropped", "fault_runs:full-error-dropped-permanent", "fault_runs:full-error-kept", "fault_runs:one-error", "fault_runs:allbut1-error", "fault_runs:transient-burst3",
+			"fault_runs:transient:err=io.EOF", "fault_runs:full-error-dropped:err=io.EOF", "fault_runs:over-error", "fault_runs:negative-error",
+			"returned:count=full,err!=nil:covering:header", "returned:count=full,err!=nil:covering:weights", "returned:count=full,err!=nil:covering:trailer",
+			"returned:count=short,err!=nil:covering:trailer", "returned:count=zero,err!=nil:covering:header", "returned:count=over,err!=nil:covering:trailer",
+			"offline:judged:full-error-dropped", "offline:judged:full-error-dropped-permanent", "offline:judged:returned:count=full,err!=nil", "offline:judged:returned:count=short,err!=nil", "offline:judged:returned:count=zero,err!=nil",
+			"sampled:fault_runs:full-error-dropped", "sampled:fault_runs:full-error-dropped-permanent", "sampled:returned:count=full,err!=nil:covering:header", "sampled:returned:count=full,err!=nil:covering:trailer",
+			"wtype:fault_runs:stringwriter:full-error-dropped", "wtype:fault_runs:readerfrom:full-error-dropped", "wtype:fault_runs:multiwriter:full-error-dropped-permanent", "wtype:fault_runs:bufio:full-error-dropped",
+			"wtype:returned_by_the_device:count=full,err!=nil",
+			"seq:calls:healthy:after-full-error-dropped", "seq:calls:healthy:after-full-error-kept-permanent",
+			// overlapping calls
+			"nested:calls_overlapped:in-write:bytes-pending", "nested:calls_overlapped:in-write:bytes-taken", "nested:calls_overlapped:in-weights", "nested:pairs_judged", "nested:inner_call_with_a_write_fault:full-error-dropped"},
 	})
 }
 
@@ -258,6 +275,9 @@ type event struct {
 	Got      int        `json:"got,omitempty"`       // bytes accepted in the injected run
 	PrefixOK bool       `json:"prefix_ok,omitempty"` // bytes accepted before the fault = prefix of the fault-free output
 	Complete bool       `json:"complete,omitempty"`  // all bytes of the fault-free output were accepted
+	Ret      int        `json:"ret,omitempty"`       // the count returned by the faulted call
+	RetErr   string     `json:"ret_err,omitempty"`   // the error returned by the faulted call ("" = nil)
+	FLen     int        `json:"flen,omitempty"`      // len(p) of the faulted call
 	ErrNil   bool       `json:"err_nil"`
 	Err      string     `json:"err,omitempty"`
 	Panic    string     `json:"panic,omitempty"`
@@ -273,7 +293,7 @@ func (b *baseRun) location(p int) (sect, loc string) {
 	return sectionOf(b.sizes, b.ws, b.es, p), locationOf(b.sizes, b.ws, b.es, string(b.data[:b.ws]), p)
 }
 
-func faultPlane(c *engine.Ctx, n int, fam string, rs uint64, fk string) {
+func faultPlane(c *engine.Ctx, n int, fam string, rs uint64, fk string, modes []string) {
 	c.Obs("fault_units", 1)
 	b := cleanRun(c, n, fam, rs, fk, fam != randFamily)
 	if b == nil {
@@ -281,7 +301,8 @@ func faultPlane(c *engine.Ctx, n int, fam string, rs uint64, fk string) {
 		return
 	}
 	W := len(b.sizes)
-	c.Emit(stream, event{K: "base", N: n, WF: fam, RS: rs, W: W, Sizes: b.sizes, Bytes: len(b.data), WS: b.ws, ES: b.es, Header: string(b.data[:b.ws]), Modes: faultModes, ErrNil: true})
+	c.Emit(stream, event{K: "base", N: n, WF: fam, RS: rs, W: W, Sizes: b.sizes, Bytes: len(b.data), WS: b.ws, ES: b.es, Header: string(b.data[:b.ws]), Modes: modes, ErrNil: true})
+	c.Obs("fault_plane:modes_per_unit:"+fmt.Sprint(len(modes)), 1)
 	c.Obs(fmt.Sprintf("writes_per_run:%s", wBucket(W)), 1)
 	c.ObsMax("writes_per_run", W)
 	c.Obs(fmt.Sprintf("fault_plane:n=%s", nBucket(n)), 1)
@@ -295,7 +316,8 @@ func faultPlane(c *engine.Ctx, n int, fam string, rs uint64, fk string) {
 		}
 	}
 	wf := func(i, j int) int { return int(weightValue(fam, n, rs, i, j)) }
-	for _, mode := range faultModes {
+	for _, mode := range modes {
+		spec, _ := specOf(mode)
 		for p := 0; p < W; p++ {
 			if c.Stopped() {
 				return
@@ -305,9 +327,9 @@ func faultPlane(c *engine.Ctx, n int, fam string, rs uint64, fk string) {
 			var err error
 			pi := c.Call(fmt.Sprintf("LIB|n=%d,w=%s|%s@%d", n, fk, mode, p), func() { err = tsp.LIB(w, n, wf) })
 			ev := event{K: "fault", N: n, WF: fam, RS: rs, W: W, Fault: &faultDesc{Pos: p, Mode: mode, Len: b.sizes[p], Sect: sect},
-				Fired: w.fired, NW: len(w.sizes), Got: len(w.data), ErrNil: err == nil}
+				Fired: w.fired, NW: len(w.sizes), Got: len(w.data), ErrNil: err == nil, Ret: w.firedRet, RetErr: w.firedErr, FLen: w.firedLen}
 			if err != nil {
-				ev.Err = err.Error()
+				ev.Err = errText(err)
 			}
 			if pi != nil {
 				ev.Panic = pi.String()
@@ -323,30 +345,37 @@ func faultPlane(c *engine.Ctx, n int, fam string, rs uint64, fk string) {
 			if coversWeights(sect) {
 				c.NTDistinct(1)
 			}
-			if w.writesAfter > 0 && mode == modePermanent {
+			if w.fired {
+				obsCovered(c.Obs, "returned:"+retClass(w.firedRet, w.firedLen, w.firedErr)+":covering:", sect)
+			}
+			if w.writesAfter > 0 && spec.perm {
 				c.Obs("permanent:runs_with_writes_attempted_after_the_failure", 1)
 			}
 			det := func() caseDetail {
 				return caseDetail{N: n, Weights: fam, RS: rs, Matrix: matrixRows(fam, n, rs), Fault: mode, Pos: p, W: W, Sect: sect,
 					Note: fmt.Sprintf("write %d of %d carries %q in the fault-free run; %d of %d bytes were accepted in the injected run", p, W, clip(string(b.data[b.offs[p]:b.offs[p]+b.sizes[p]]), 60), len(w.data), len(b.data))}
 			}
+			if pi != nil && brokenCount(mode) {
+				c.Obs(mode+":LIB_panicked(count outside 0..len(p), not judged):at="+sect, 1)
+				continue
+			}
 			if pi != nil {
 				c.Violation("LIB|panic-on-write-failure|"+engine.SiteNoLine(pi.Site)+"|"+mode+"|at="+loc, det(), pi.String(), "a non-nil error")
 				continue
 			}
 			if !w.fired {
-				if mode != modeShortNil {
+				if !nilErrorMode(mode) {
 					c.Obs("fault_not_reached", 1)
 				}
 				continue
 			}
-			if mode == modeShortNil {
+			if !judgedMode(mode) {
 				// a writer that breaks its contract: what LIB does is recorded only
 				res := "nil"
 				if err != nil {
 					res = "error"
 				}
-				c.Obs("short-nil-error:LIB_returned_"+res+":at="+sect, 1)
+				c.Obs(mode+":LIB_returned_"+res+":at="+sect, 1)
 				continue
 			}
 			// online verdict (so that the witness can be replayed); the offline
@@ -375,6 +404,77 @@ func wBucket(w int) string {
 }
 
 // ---- workload ---------------------------------------------------------------
+
+// countRange: the full space of failing-Write behaviours (allInProcessModes) is
+// enumerated at every position for n <= deep with all weight families; the
+// judged count modes for deep < n <= mid with two families; the full-count
+// failure (once / for good) wherever the four original modes are.
+func countRange(thorough bool) (deep, mid int) {
+	if thorough {
+		return 12, 24
+	}
+	return 5, 12
+}
+
+// planeModes: the modes of the exhaustive fault plane for (n, family); a pure
+// function of the tier (the offline checker uses it too).
+func planeModes(n int, fam string, thorough bool) []string {
+	deep, mid := countRange(thorough)
+	switch {
+	case n <= deep:
+		return allInProcessModes()
+	case n <= mid && (fam == randFamily || fam == fixedFamilies[n%len(fixedFamilies)]):
+		return joinModes(faultModes, fullCountModes, countModes)
+	case n <= fullCountAll || (fam == randFamily && n%2 == 0):
+		return joinModes(faultModes, fullCountModes)
+	}
+	return faultModes
+}
+
+// fullCountAll: up to this n the full-count failure accompanies the four
+// original modes for every weight family of the sweep, above it (thorough only)
+// for the seeded family at even n.
+const fullCountAll = 40
+
+// retClass names what a faulted call returned: the count relative to len(p) and
+// whether the error was nil.
+func retClass(ret, l int, retErr string) string {
+	cnt := "short"
+	switch {
+	case ret < 0:
+		cnt = "negative"
+	case ret > l:
+		cnt = "over"
+	case ret == l:
+		cnt = "full"
+	case ret == 0:
+		cnt = "zero"
+	}
+	if retErr == "" {
+		return "count=" + cnt + ",err=nil"
+	}
+	return "count=" + cnt + ",err!=nil"
+}
+
+func notJudgedObs(prefix, mode string) string {
+	if brokenCount(mode) {
+		return prefix + "records_not_judged(count outside 0..len(p))"
+	}
+	return prefix + "records_not_judged(short count with nil error)"
+}
+
+// checkRet: the verdict class of a mode (a function of its name) must agree
+// with what the faulted call actually returned according to the log.
+func checkRet(s *engine.Super, ev *event) bool {
+	if ev.Fault == nil || !ev.Fired || ev.Fault.Mode == "strace-transient" || ev.Fault.Mode == "strace-permanent" {
+		return true
+	}
+	if judgedMode(ev.Fault.Mode) != retOK(ev.Ret, ev.FLen, ev.RetErr) {
+		s.Inconclusive(fmt.Sprintf("event log: mode %s is judged=%v but the faulted call returned (%d, %q) for %d bytes", ev.Fault.Mode, judgedMode(ev.Fault.Mode), ev.Ret, ev.RetErr, ev.FLen))
+		return false
+	}
+	return true
+}
 
 // faultRange: the fault plane covers n = 0..maxFault, with all weight
 // families up to maxAll.
@@ -445,7 +545,7 @@ func run(c *engine.Ctx) {
 				if fam == randFamily {
 					rs = c.Rand("fault-rand", n).U64()
 				}
-				faultPlane(c, n, fam, rs, famKey(fam, n))
+				faultPlane(c, n, fam, rs, famKey(fam, n), planeModes(n, fam, c.Thorough()))
 			})
 		}
 	}
@@ -457,6 +557,8 @@ func run(c *engine.Ctx) {
 	// 2c. writer types (writers.go) and sequences of calls (sequences.go)
 	typeUnits(c)
 	seqUnits(c)
+	// 2d. two calls that overlap in time (nested.go)
+	nestedUnits(c)
 
 	// 3. thorough: real files under strace write(2) error injection.
 	if c.Thorough() {
@@ -558,7 +660,7 @@ func finish(s *engine.Super) {
 			continue // reported online with its site
 		}
 		if !ev.Fired {
-			if ev.Fault.Mode != modeShortNil {
+			if !nilErrorMode(ev.Fault.Mode) {
 				s.AddObs("offline:fault_not_reached", 1)
 			}
 			continue
@@ -566,12 +668,16 @@ func finish(s *engine.Super) {
 		if !ev.PrefixOK {
 			s.AddObs("offline:prefix_differs_from_fault_free_run", 1)
 		}
+		if !checkRet(s, ev) {
+			return
+		}
 		if !judgedMode(ev.Fault.Mode) {
-			s.AddObs("offline:records_not_judged(short count with nil error)", 1)
+			s.AddObs(notJudgedObs("offline:", ev.Fault.Mode), 1)
 			continue
 		}
 		judged++
 		s.AddObs("offline:judged:"+ev.Fault.Mode, 1)
+		s.AddObs("offline:judged:returned:"+retClass(ev.Ret, ev.FLen, ev.RetErr), 1)
 		if ev.ErrNil {
 			viol++
 			if ev.Complete {
@@ -617,16 +723,21 @@ func finish(s *engine.Super) {
 		s.Inconclusive(fmt.Sprintf("event log: %d fault-free records for %d fault-plane units", nBase, want))
 	}
 	// the sweep is exhaustive if the log holds every (n, family) of the tier
-	// with all four in-process modes at all positions
+	// with all the modes of planeModes(n, family) at all positions
 	maxFault, maxAll := faultRange(s.Thorough())
 	sweepOK := complete == int64(len(bases))
 	for n := 0; n <= maxFault && sweepOK; n++ {
 		for _, fam := range faultFamilies(n, maxAll) {
 			found := false
 			for _, bi := range bases {
-				if bi.ev.N == n && bi.ev.WF == fam && len(bi.seen[modeTransient]) == bi.ev.W && len(bi.seen[modePermanent]) == bi.ev.W && len(bi.seen[modeShortErr]) == bi.ev.W && len(bi.seen[modeShortNil]) == bi.ev.W {
-					found = true
+				if bi.ev.N != n || bi.ev.WF != fam {
+					continue
 				}
+				all := true
+				for _, m := range planeModes(n, fam, s.Thorough()) {
+					all = all && len(bi.seen[m]) == bi.ev.W
+				}
+				found = found || all
 			}
 			if !found {
 				sweepOK = false
@@ -634,10 +745,20 @@ func finish(s *engine.Super) {
 		}
 	}
 	if sweepOK {
+		deep, mid := countRange(s.Thorough())
 		s.AddObs(fmt.Sprintf("exhaustive:fault plane (verified from the event log): all write positions x 4 modes, n=0..%d x all %d weight families", maxAll, len(fixedFamilies)+1), 1)
 		if maxFault > maxAll {
 			s.AddObs(fmt.Sprintf("exhaustive:fault plane (verified from the event log): all write positions x 4 modes, n=%d..%d x 3 weight families", maxAll+1, maxFault), 1)
 		}
+		fca := maxFault
+		if fca > fullCountAll {
+			fca = fullCountAll
+			s.AddObs(fmt.Sprintf("exhaustive:fault plane (verified from the event log): all write positions x {error with a FULL count, bytes dropped; once / from there on}, n=%d..%d (even n) x seeded random weights", fca+1, maxFault), 1)
+		}
+		s.AddObs(fmt.Sprintf("exhaustive:fault plane (verified from the event log): all write positions x {error with a FULL count, bytes dropped; once / from there on}, n=0..%d x the weight families of the 4-mode sweep", fca), 1)
+		s.AddObs(fmt.Sprintf("exhaustive:fault plane (verified from the event log): all write positions x %d modes of count x error value x bytes kept/dropped x duration (%d judged, %d broken writers recorded), n=0..%d x all %d weight families",
+			len(allInProcessModes()), len(allInProcessModes())-len(brokenModes)-1, len(brokenModes)+1, deep, len(fixedFamilies)+1), 1)
+		s.AddObs(fmt.Sprintf("exhaustive:fault plane (verified from the event log): all write positions x %d judged modes of count x bytes x duration, n=%d..%d x 2 weight families", len(faultModes)-1+len(fullCountModes)+len(countModes), deep+1, mid), 1)
 	} else if s.Obs("fault_units_skipped_after_clean_violation") == 0 {
 		s.Inconclusive("event log: the fault plane of this tier is not complete")
 	}
